@@ -3,3 +3,5 @@ import Model.Varint
 import Model.Codec
 import Model.Ref
 import Model.Wire
+import Model.Topic
+import Model.TopicSpec
